@@ -1,5 +1,5 @@
 \* exhaustive, copy/read-only focus: block > 2 components + 3 pool ids (thorough)
-CONSTANTS N = 6  Par = {"p", "q"}  NVal = 2  NGrid = 2  MaxDepth = 1  MaxLevel = 6
+CONSTANTS N = 6  Par = {"p", "q"}  NVal = 2  NGrid = 2  MaxDepth = 1  MaxLevel = 5
           GridSlot = "stack"  PickleSerial = "fresh"
 CONSTANTS Keeps <- KeepsSmall  Acts <- ActsCopy  Parent0 <- ParentA  Cls0 <- ClsA
           ParOf <- McParOf  GridCls <- McGridCls  MatCls <- McMatCls
